@@ -40,8 +40,8 @@ def r3_1(ctx):
     ctx.floor("functions printing bestmove", len(pr), 1)
     # templates: bestmove {}{} and bestmove {}{}{}
     if SBM in pr:
-        ts = sorted({t for _, t in pr[SBM]})
-        ctx.ob("send_best_move_to_gui:templates", ts == ["bestmove {}{}", "bestmove {}{}{}"], f.body(SBM).file, "templates %s" % ts)
+        ts = sorted({tmpl for _, tmpl, _, _, _ in _bestmove_lines(f, f.body(SBM))})
+        ctx.ob("send_best_move_to_gui:templates", ts == ["bestmove {}{}", "bestmove {}{}{}"], f.body(SBM).file, "rendered templates %s" % ts)
     # exactly one reply on every path of find_and_play_best_move
     b = f.body(FIND)
     ctx.note_fn(FIND, SBM)
@@ -65,36 +65,72 @@ def r3_1(ctx):
         ctx.ob("find_and_play_best_move:one-reply", sts == {1}, b.where(b.term_loc(rb)),
                "number of bestmove lines printed on the paths reaching this return: %s (must be exactly 1)" % sorted(sts))
     ctx.floor("returns of find_and_play_best_move", len(at_ret), 1)
-    # send_best_move_to_gui prints once per path, letter iff pawn_promotion is Some
+    # send_best_move_to_gui prints once per call; the line is `bestmove <from><to>` plus the letter
+    # alg(pawn_promotion.kind) exactly when pawn_promotion is Some.  The lines are *rendered*
+    # (wa/strsym.py): a letter chosen by if/else, by `map_or("", ..)` or by two separate format!
+    # calls gives the same two cases.
     sb = f.body(SBM)
-    sex = Exprs(sb)
-    for blocks, dec in enum_paths(sb, sex):
-        if sb.term(blocks[-1])["k"] != "return":
-            continue
-        nsend = sum(1 for x in blocks if sb.term(x)["k"] == "call" and callee_of(sb.term(x)) == SEND)
-        promo = None
-        for d, (vals, oth) in dec.items():
-            if d[0] == "discr" and strip_refs(d[1])[0] == "field" and strip_refs(d[1])[2] == "pawn_promotion":
-                promo = (vals == (1,) and not oth)
-        tpl = [t for loc, t in fmtlit.templates(sb) if loc[0] in blocks and "bestmove" in t]
-        ok = nsend == 1 and promo is not None and tpl == (["bestmove {}{}{}"] if promo else ["bestmove {}{}"])
-        ctx.ob("send_best_move_to_gui:path(promotion=%s)" % promo, ok, sb.where((blocks[-1], 0)),
-               "prints once (%d) with template %s; the letter must be present exactly when pawn_promotion is Some" % (nsend, tpl))
-        if promo:
-            # the third argument is alg(kind of the promotion piece)
-            algs = [x for x in blocks if sb.term(x)["k"] == "call" and callee_of(sb.term(x)) == "board::PieceKind::alg"]
-            okk = False
-            if len(algs) == 1:
-                a = strip_refs(sex.call_args(algs[0])[0])
-                okk = a[0] == "field" and a[2] == "kind" and any(x[0] == "field" and x[2] == "pawn_promotion" for x in subexprs(a))
-            ctx.ob("send_best_move_to_gui:letter-is-promotion-kind", okk, sb.where((blocks[-1], 0)), "the letter printed is alg(pawn_promotion.kind)")
+    before_s, at_ret_s = forward_states(sb, (0, -1), {0}, lambda loc, st: [min(st + 1, 3)] if (
+        loc[1] == len(sb.stmts(loc[0])) and sb.term(loc[0])["k"] == "call" and callee_of(sb.term(loc[0])) == SEND) else [st], restart_kills=False)
+    once = bool(at_ret_s) and all(sts == {1} for sts in at_ret_s.values())
+    lines = _bestmove_lines(f, sb)
+    seen = set()
+    for promo, tmpl, holes, where, pe in lines:
+        seen.add(promo)
+        ok = once and promo is not None and tmpl == ("bestmove {}{}{}" if promo else "bestmove {}{}")
+        ctx.ob("send_best_move_to_gui:path(promotion=%s)" % promo, ok, where,
+               "prints once (%s) with rendered template `%s`; the letter must be present exactly when pawn_promotion is Some" % (once, tmpl))
+        if promo and len(holes) == 3:
+            a = strip_refs(holes[2][1])
+            okk = a[0] == "call" and a[1] == "board::PieceKind::alg" and len(a[2]) == 1
+            if okk:
+                k = strip_refs(a[2][0])
+                okk = k[0] == "field" and k[2] == "kind" and strip_refs(k[1]) == ("field", ("downcast", pe, "Some"), "0")
+            ctx.ob("send_best_move_to_gui:letter-is-promotion-kind", okk, where, "the letter printed is alg(pawn_promotion.kind): `%s`" % show_expr(a, sb)[:70])
+    ctx.ob("send_best_move_to_gui:both-cases", seen == {True, False}, sb.file, "lines for pawn_promotion Some / None: %s" % sorted(map(str, seen)), reason="shape-not-recognised", nontrivial=False)
     # the squares printed are last_move.0 / last_move.1 in that order
     order = []
-    for bb, t in sorted(sb.iter_calls()):
-        if "new_display::<board::Point>" in (t.get("callee_full") or ""):
-            a = strip_refs(sex.call_args(bb)[0])
-            order.append(a[2] if a[0] == "field" else "?")
-    ctx.ob("send_best_move_to_gui:from-then-to", order in (["0", "1"], ["0", "1", "0", "1"]), sb.file, "Point arguments printed in the order %s of last_move" % order)
+    for promo, tmpl, holes, where, pe in lines:
+        for ty, h in holes[:2]:
+            a = strip_refs(h)
+            order.append(a[2] if a[0] == "field" and any(x[0] == "field" and x[2] == "last_move" for x in subexprs(a[1])) else "?")
+    ctx.ob("send_best_move_to_gui:from-then-to", bool(order) and order == ["0", "1"] * (len(order) // 2), sb.file, "Point arguments printed in the order %s of last_move" % order)
+
+
+def _bestmove_lines(f, sb):
+    """[(promotion Some? True/False/None, rendered template, holes, where, pawn_promotion expr)] for every
+    `bestmove` line send_best_move_to_gui can print."""
+    from wa import strsym
+    out = []
+    for bb, t in strsym.fmt_sites(sb):
+        if "bestmove" not in t:
+            continue
+        for r in strsym.renderings(sb, bb):
+            # what the guards say about pawn_promotion on this alternative
+            promo, pe = None, None
+            for d, vals, excl, s, tg in dominating_facts(r.body, r.ex, bb):
+                if d[0] == "discr" and strip_refs(d[1])[0] == "field" and strip_refs(d[1])[2] == "pawn_promotion":
+                    pe = strip_refs(d[1])
+                    if vals is not None:
+                        promo = vals == [1]
+                    elif excl:
+                        promo = (excl == [0]) if set(excl) <= {0, 1} and len(excl) == 1 else None
+            cases = [(promo, r.pieces)]
+            if promo is None:
+                # an Option combinator on pawn_promotion among the holes decides the two cases
+                for i, p in enumerate(r.pieces):
+                    oc = strsym.option_cases(f, p[2]) if p[0] == "hole" else None
+                    if oc and strip_refs(oc[0])[0] == "field" and strip_refs(oc[0])[2] == "pawn_promotion":
+                        pe = strip_refs(oc[0])
+                        none_p = strsym.flatten(r.ex, oc[1])
+                        some_p = [q if q[0] == "lit" or q[1] is not None else ("hole", p[1], q[2]) for q in strsym.flatten(r.ex, oc[2])]
+                        cases = [(False, r.pieces[:i] + none_p + r.pieces[i + 1:]), (True, r.pieces[:i] + some_p + r.pieces[i + 1:])]
+                        break
+            for pr, pcs in cases:
+                pcs = strsym._merge(pcs)
+                tmpl = "".join(q[1] if q[0] == "lit" else "{}" for q in pcs)
+                out.append((pr, tmpl, [(q[1], q[2]) for q in pcs if q[0] == "hole"], r.body.where(r.loc), pe))
+    return out
 
 
 def r3_35(ctx):
@@ -195,41 +231,49 @@ def r3_6(ctx):
             txt = {x[1] for x in sl if x[0] == "str"}
             order.append("file" if txt & set(chess.FILES) else ("rank" if txt & set("12345678") else "?"))
     ctx.ob("Point::fmt:file-then-rank", tpl == ["{}{}"] and order == ["file", "rank"], b.file, "template %s, argument order %s" % (tpl, order))
-    # from_str: letter -> column index, digit -> row
+    # from_str: evaluated concretely on every two-character text (finite instantiation): the 64 square
+    # names must parse to the Point that fmt prints as that name, i.e. Point(10 - digit, file index + 2),
+    # and neighbouring non-squares must be rejected.  The k-th `chars.next()` is the k-th character.
+    from wa.concwalk import Conc, NONE, some
+    from wa.interp import Unknown
     fb = f.body(PFROM)
     fex = Exprs(fb)
+    if fb.loops():
+        raise ShapeNotRecognised("Point::from_str contains a loop")
+    nexts = [fex.call_expr(t, fb.term_loc(bb)) for bb, t in sorted(fb.iter_calls()) if (callee_of(t) or "").endswith("Chars<'a> as std::iter::Iterator>::next")
+             or ((callee_of(t) or "").endswith("::next") and "Chars" in (t.get("callee_full") or ""))]
+    nexts.sort(key=lambda c: sum(1 for d in nexts if fb.node_dominates(d[3][0], c[3][0])))
+    if len(nexts) < 2:
+        raise ShapeNotRecognised("Point::from_str does not read its text character by character (%d `chars.next()` calls)" % len(nexts))
+
+    def parse(text):
+        env = {c: (some(ord(text[i])) if i < len(text) else NONE) for i, c in enumerate(nexts)}
+        try:
+            v = Conc(f, fb, env, fex).run()
+        except Unknown as e:
+            raise ShapeNotRecognised("Point::from_str(\"%s\") cannot be evaluated: %r" % (text, e))
+        if isinstance(v, tuple) and v[:3] == ("adt", "std::result::Result", "Ok"):
+            pt = v[3][0]
+            return tuple(pt[3]) if isinstance(pt, tuple) and pt and pt[0] == "adt" else pt
+        return None
     lm = {}
-    for bb in fb.normal:
-        t = fb.term(bb)
-        if t["k"] == "switch" and t["discr_ty"] == "char":
-            for v, tg in t["cases"]:
-                for i, st in enumerate(fb.stmts(tg)):
-                    if st["k"] == "assign":
-                        e = fex.rvalue(st["rv"], (tg, i))
-                        if e[0] == "const" and isinstance(e[1], int):
-                            lm[chr(v)] = e[1]
+    for i, c in enumerate(chess.FILES):
+        pt = parse(c + "1")
+        if pt is not None:
+            lm[c] = pt[1] - 2
     ctx.ob("Point::from_str:files", lm == {c: i for i, c in enumerate(chess.FILES)}, fb.file, "file letter -> column index: %s" % sorted(lm.items()))
-    oks = []
-    for blocks, dec in enum_paths(fb, fex):
-        if fb.term(blocks[-1])["k"] != "return":
-            continue
-        env, conds = eval_path(fb, blocks)
-        r = env.get(0)
-        if r and r[0] == "agg" and r[2] == "Ok":
-            pt = strip_refs(r[3][0])
-            oks.append(pt)
-    from wa.linear import linear
-    good = bool(oks)
-    for pt in oks:
-        if not (pt[0] == "agg" and pt[1] == "board::Point"):
-            good = False
-            continue
-        lr, lc = linear(pt[3][0]), linear(pt[3][1])
-        # row = 10 - digit ; col = index + 2
-        okr = lr is not None and lr[1] == 10 and list(lr[0].values()) == [-1] and any(x[0] == "call" and x[1].endswith("to_digit") for t_ in lr[0] for x in subexprs(t_))
-        okc = lc is not None and lc[1] == 2 and list(lc[0].values()) == [1] or (lc is not None and not lc[0] and 2 <= lc[1] <= 9)
-        good = good and okr and okc
-    ctx.ob("Point::from_str:inverse-of-fmt", good, fb.file, "parses to Point(10 - digit, file index + 2) on %d success paths" % len(oks))
+    bad = []
+    for i, c in enumerate(chess.FILES):
+        for d in "12345678":
+            pt = parse(c + d)
+            if pt != (10 - int(d), i + 2):
+                bad.append((c + d, pt))
+    for txt in ("`1", "i1", "A1", "a0", "a9", "a", "a1x", "", "11", "aa"):
+        pt = parse(txt)
+        if pt is not None:
+            bad.append((txt, pt))
+    ctx.ob("Point::from_str:inverse-of-fmt", not bad, fb.file,
+           "the 64 square names parse to Point(10 - digit, file index + 2) and 10 neighbouring non-squares are rejected" if not bad else "wrong results (text, parsed): %s" % bad[:6])
     # promotion letters
     ab = f.body("board::PieceKind::alg")
     aex = Exprs(ab)
